@@ -15,6 +15,7 @@ Stub: failure behaviour of open/write/close/truncate/unlink (simlib.fs)
 import errno
 import io
 import gc
+import logging
 import os
 import random
 import shutil
@@ -41,7 +42,7 @@ BUDGETS = {'C06': (45, 900, 10)}
 LEVELS = {'C06': 'fault_enumeration'}
 PROBES = {'C06': ['numbered_files', 'first_record_of_file', 'compressed', 'uncompressed', 'multi_write_append', 'error_at_journal', 'error_at_archive_open',
                   'error_at_archive_write', 'error_at_archive_close', 'error_at_unlink', 'torn_error', 'short_write',
-                  'kill_points', 'kill_torn_points', 'kill_with_journal', 'restart_refused', 'real_kill_crosscheck', 'archive_name_with_glob_characters']}
+                  'kill_points', 'kill_torn_points', 'kill_with_journal', 'restart_refused', 'real_kill_crosscheck', 'archive_name_with_glob_characters', 'second_run_close']}
 INFO = {'C06': {
     'rule': 'workload = (compression, 0..5 earlier records, record to append with block of 0..40000 bytes); per workload '
             'EVERY file operation of the append is a fault position for the I/O-error clause and every operation '
@@ -93,6 +94,89 @@ def _collect():
     gc.collect()
 
 
+def _second_run_close(tape, r, rng, compress, digests, sandbox, tmpdir, idrng, workload):
+    """The appends a recorder makes when a SECOND run (--warc-append, --warc-max-size) is closed: warcinfo and log record go
+    to the '-meta' file, which already holds the first run's records. One I/O error at every file operation of close(); what
+    the first run (and this run so far) archived must still be there, byte for byte, and no journal may remain."""
+    r.sub = 'second-run-close'
+    r.probes['second_run_close'] += 1
+    log = tape.chance(2, 3, 'src.log')
+    prefix = os.path.join(sandbox, 'a')
+
+    def params(appending):
+        return WARCRecorderParams(compress=compress, temp_dir=tmpdir, log=log, digests=digests, cdx=False, software_string='verif-sim/1',
+                                  max_size=10 ** 9, appending=appending)
+    rec1 = WARCRecorder(prefix, params=params(False))
+    for i in range(tape.between(1, 3, 'src.n1')):
+        x = make_record(random.Random(rng.randrange(1 << 30)), tape.choice((10, 500, 9000), 'src.size'), i)
+        rec1.set_length_and_maybe_checksums(x)
+        rec1.write_record(x)
+    rec1.close()
+    run1 = simfs.snapshot_dir(sandbox)
+    workload.update({'variant': 'second_run_close', 'log': log, 'files_after_run1': sorted((k, len(v)) for k, v in run1.items())})
+
+    def second(plan=None):
+        simfs.restore_dir(sandbox, run1)
+        idrng.seed(5150)
+        rec2 = WARCRecorder(prefix, params=params(True))          # (its own warcinfo append happens outside the fault seam)
+        y = make_record(random.Random(7), 300, 50)
+        rec2.set_length_and_maybe_checksums(y)
+        rec2.write_record(y)
+        before = simfs.snapshot_dir(sandbox)
+        f = simfs.SimFS(sandbox)
+        f.plan = plan or {}
+        err = None
+        with f:
+            try:
+                rec2.close()
+            except OSError as e:
+                err = e
+            _collect()
+        root = logging.getLogger()
+        for hd in list(root.handlers):
+            root.removeHandler(hd)
+        return f, err, before
+    f0, err0, before0 = second()
+    if err0 is not None:
+        r.violate(P, 'setup', 'fault-free-close-failed', repr(err0))
+        return r
+    nops = f0.ops
+    oplog = list(f0.log)
+    workload['ops'] = [(o[1], o[2]) for o in oplog]
+    r.nontrivial = nops >= 4
+    for k in range(nops):
+        kind, name = oplog[k][1], oplog[k][2]
+        if kind == 'unlink':
+            continue                        # a journal whose unlink fails cannot but remain
+        for fault in (('error', 28), ('torn-error', 7, 5)):
+            if fault[0] == 'torn-error' and kind != 'write':
+                continue
+            f, err, before = second({k: fault})
+            r.faults['io_error.%s' % kind] += 1
+            r.probes['error_at_' + ('journal' if name.endswith('-wpullinc') else 'archive_' + kind)] += 1
+            after = simfs.snapshot_dir(sandbox)
+            pos = 'close() op%d/%d %s:%s %s' % (k, nops, kind, name, fault[0])
+            for fn, data in before.items():
+                if not (fn.endswith('.warc') or fn.endswith('.warc.gz')):
+                    continue
+                got = after.get(fn)
+                if got is None:
+                    r.violate(P, 'io-error-archive-damaged', 'second-run-close:file-gone', '%s: %s no longer exists (it held %d bytes of earlier records)' % (pos, fn, len(data)))
+                    continue
+                if got[:len(data)] != data:
+                    r.violate(P, 'io-error-archive-damaged', 'second-run-close:earlier-bytes-changed', '%s: the first %d bytes of %s are not what they were' % (pos, len(data), fn))
+                    continue
+                okv, recs, errs = valid_sequence(got, compress)
+                if not okv:
+                    r.violate(P, 'io-error-archive-damaged', 'second-run-close:not-a-record-sequence', '%s: %s (%d -> %d bytes): %r' % (pos, fn, len(data), len(got), errs[:2]))
+            left = [fn for fn in after if fn.endswith('-wpullinc')]
+            if left and err is not None:
+                r.violate(P, 'io-error-journal-left', 'second-run-close', '%s: journal %r remains after the failed close' % (pos, left))
+    r.workload = workload
+    r.sample = {'workload': workload, 'violations': [v.cls + ':' + v.sig for v in r.violations][:6]}
+    return r
+
+
 def run(tape, prop, tier):
     r = Result()
     rng = tape.subrng('rng')
@@ -114,6 +198,8 @@ def run(tape, prop, tier):
     wpull.util.datetime_str = lambda: '2018-01-01T00:00:00Z'
     time.time = lambda: 1514764800.0          # gzip member headers carry time.time()
     try:
+        if tape.chance(1, 6, 'variant.second_run_close'):
+            return _second_run_close(tape, r, rng, compress, digests, sandbox, tmpdir, idrng, workload)
         # with --warc-max-size the files are numbered (a-00000.warc.gz ...); the limit itself is never reached here
         max_size = 10 ** 9 if tape.chance(1, 3, 'max_size') else None
         workload['max_size'] = bool(max_size)
